@@ -63,6 +63,7 @@ type State struct {
 	oldHeap  map[string]string // for old() during contract evaluation (nil = entry heap)
 	useOld   bool
 	steps    int
+	freshErrs []string
 	protected []string // refs of non-escaping local allocations (survive havoc-all)
 }
 
@@ -87,6 +88,7 @@ func (st *State) fork() *State {
 	n.locked = append([]lockRec(nil), st.locked...)
 	n.trail = append([]string(nil), st.trail...)
 	n.protected = append([]string(nil), st.protected...)
+	n.freshErrs = append([]string(nil), st.freshErrs...)
 	n.frames = make([]*Frame, len(st.frames))
 	for i, f := range st.frames {
 		g := *f
@@ -281,6 +283,13 @@ func (st *State) loadField(ref string, stT types.Type, idx int) *Val {
 func (st *State) subObj(ref, key string) string {
 	fid := st.eng.fieldID(key)
 	t := "(fld_addr " + ref + " " + fmt.Sprint(fid) + ")"
+	if !st.useOld {
+		key2 := "fb:" + t
+		if !st.declSet[key2] {
+			st.declSet[key2] = true
+			st.assume(eq("(fld_base "+t+")", ref))
+		}
+	}
 	return t
 }
 
